@@ -398,6 +398,7 @@ func checkC20(c *core.Ctx) error {
 	checkInterfaceComparisons(c)
 	checkOptionalScratch(c)
 	checkQRShiftStrategy(c)
+	checkBacktrackingProgress(c)
 	checkTipGuard(c)
 	checkRestartProtocol(c)
 	checkOptionSwitches(c)
